@@ -341,6 +341,18 @@ func init() {
 			if r.Chance(1, 10) {
 				s = randText(r, 12)
 			}
+			if r.Chance(2, 5) { // addresses put together from the characters that matter: colons, brackets, dots, multi-byte runes, a zone
+				alpha := []string{":", ":", "[", "]", "a", "1", ".", "é", "%", "::", "日", "-", "0"}
+				n := r.Intn(24)
+				if r.Chance(1, 12) {
+					n = 100 + r.Intn(400) // long inputs
+				}
+				var b strings.Builder
+				for k := 0; k < n; k++ {
+					b.WriteString(r.Pick(alpha))
+				}
+				s = b.String()
+			}
 			return c20HostportIn{s}
 		},
 		Run: func(raw json.RawMessage) (interface{}, error) {
